@@ -61,6 +61,32 @@ def compile_hashes(progs, wd, flavour, name):
     return out
 
 
+FIXED_DRAWS = """LIST L0 = (ap), (aq), ar
+LIST L1 = (bp), bq
+VAR lmix = ()
+VAR n = 0
+-> k0
+== k0 ==
+~ lmix = (ap, bp)
+{LIST_RANDOM(L0)} {LIST_RANDOM(L1)} {LIST_RANDOM(lmix)} {LIST_MIN(lmix)} {LIST_MAX(lmix)} {RANDOM(1, 6)}
+{~one|two|three} {LIST_RANDOM(L0 + ar)}
+* [again]
+    ~ n = n + 1
+    {LIST_RANDOM(L0)} {LIST_COUNT(LIST_RANDOM(L0 + ar))} {~x|y}
+    -> k1
+* [stop]
+    {LIST_RANDOM(lmix)}
+    -> END
+== k1 ==
+{LIST_RANDOM(L0)} {LIST_RANDOM(L1 + bq)} {RANDOM(0, 9)}
+* [more]
+    {LIST_RANDOM(lmix)} {LIST_MIN(L0)} {LIST_MAX(L1 + bq)}
+    -> END
+* [end]
+    -> END
+"""
+
+
 def run(tier, seed):
     t0 = time.time()
     quick = tier == "quick"
@@ -73,6 +99,11 @@ def run(tier, seed):
         g["unbound_probe"] = True
         g["id"] += "-unbound"
         progs.append(g)
+    # one fixed story that draws from non-empty lists on every path (whatever the generator's dice say: a draw that is
+    # wrong in one build profile only must show under every VERIF_SEED)
+    fixed = dict(common.gen_programs(1, seed + 4, vars=1)[0])
+    fixed.update(id="c03-fixed-draws", lists=[], src=FIXED_DRAWS, globals=["lmix", "n"], ints=["n"], bools=[], strs=[], externals=[], flows=[])
+    progs.append(fixed)
     corpus = [c for c in common.corpus_programs() if any(k in c["id"] for k in ("lists/", "shuffle", "rnd", "random"))]
     progs += corpus if not quick else corpus[:8]
     nviol = 0
@@ -103,26 +134,11 @@ def run(tier, seed):
 
 
 def run_one(progs, build, tier, seed, ex_kw, flavour, what):
-    """like runner.run_relational, but the probes run in another build flavour than the base"""
-    orig = runner.run_chunk
-
-    def chunk(args):
-        (prop, idx, ps, b, wd, ekw, ckw, _fl) = args
-        # explore with the debug build, probe with `flavour`
-        import types
-        real = lib.run_inkdrive
-
-        def patched(scs, wd2, name="run", flavour="debug", timeout=600, env_extra=None):
-            fl = flavour_probe if name.startswith("probe") else "debug"
-            return real(scs, wd2, name=name, flavour=fl, timeout=timeout, env_extra=env_extra)
-        flavour_probe = flavour
-        lib.run_inkdrive = patched
-        try:
-            return orig((prop, idx, ps, b, wd, ekw, ckw, "debug"))
-        finally:
-            lib.run_inkdrive = real
+    """like runner.run_relational, but the probes run in another build flavour than the base (explored with the debug
+    build).  The override is a process-wide setting read by lib.run_inkdrive - the chunks run in threads, a patched
+    function swapped in and out per chunk was a race: now and then a "release" probe ran in the debug build."""
     lib.build(flavour)
-    runner.run_chunk = chunk
+    lib.PROBE_FLAVOUR = flavour
     try:
         return runner.run_relational(
             "C03", progs, build, tier, seed, "model_checking",
@@ -132,4 +148,4 @@ def run_one(progs, build, tier, seed, ex_kw, flavour, what):
             ex_kw=ex_kw, jobs=1 if flavour != "debug" else 6, case_kw=dict(probed=True),
             assumptions=["the story seed is set by the harness (hook); hash seeds differ per process and per map"])
     finally:
-        runner.run_chunk = orig
+        lib.PROBE_FLAVOUR = None
